@@ -1,8 +1,277 @@
-(** C15 — Requires resolve as documented and conversions keep the target. *)
-From DL Require Import Lib.Bytes Model.Paths Model.Require Proof.PathsBasics.
+(** C15 — Requires resolve as documented and conversions keep the target.
+    Only statements, closed by [exact], with their assumptions printed. *)
+From DL Require Import Lib.Bytes Model.Paths Model.Require Proof.PathsBasics Proof.PathsFacts
+  Proof.RequireFacts Proof.PathsRoundtrip Proof.PathsConvert Proof.PathsConvertFinal.
 Open Scope N_scope.
 
-Theorem C15_candidates_head : forall p mfn, exists r, candidates p mfn = p :: r.
-Proof. exact candidates_head. Qed.
-Print Assumptions C15_candidates_head.
-Check C15_candidates_head : forall p mfn, exists r, candidates p mfn = p :: r.
+(** the candidate list is the documented list *)
+Theorem C15_candidates_documented_order : forall p mfn m,
+  parse_path mfn = [Norm m] -> candidates p mfn = documented_candidates p m.
+Proof. exact candidates_documented_order. Qed.
+Print Assumptions C15_candidates_documented_order.
+Check C15_candidates_documented_order : forall p mfn m,
+  parse_path mfn = [Norm m] -> candidates p mfn = documented_candidates p m.
+
+Theorem C15_candidates_six : forall q n mfn m,
+  parse_path mfn = [Norm m] -> is_lua_ext (name_ext n) = false -> name_ext m = None ->
+  candidates (q ++ [Norm n]) mfn =
+  [ q ++ [Norm n];
+    q ++ [Norm (n ++ dot :: luau_ext)];
+    q ++ [Norm (n ++ dot :: lua_ext)];
+    q ++ [Norm n; Norm m];
+    q ++ [Norm n; Norm (m ++ dot :: luau_ext)];
+    q ++ [Norm n; Norm (m ++ dot :: lua_ext)] ].
+Proof. exact candidates_six. Qed.
+Print Assumptions C15_candidates_six.
+Check C15_candidates_six : forall q n mfn m,
+  parse_path mfn = [Norm m] -> is_lua_ext (name_ext n) = false -> name_ext m = None ->
+  candidates (q ++ [Norm n]) mfn =
+  [ q ++ [Norm n];
+    q ++ [Norm (n ++ dot :: luau_ext)];
+    q ++ [Norm (n ++ dot :: lua_ext)];
+    q ++ [Norm n; Norm m];
+    q ++ [Norm n; Norm (m ++ dot :: luau_ext)];
+    q ++ [Norm n; Norm (m ++ dot :: lua_ext)] ].
+
+Theorem C15_candidates_lua_extension : forall p mfn,
+  is_lua_ext (extension p) = true -> candidates p mfn = [p].
+Proof. exact candidates_lua_extension. Qed.
+Print Assumptions C15_candidates_lua_extension.
+Check C15_candidates_lua_extension : forall p mfn,
+  is_lua_ext (extension p) = true -> candidates p mfn = [p].
+
+Theorem C15_module_folder_name_is_a_name : forall n, wf_name n = true -> parse_path n = [Norm n].
+Proof. exact parse_path_wf_name. Qed.
+Print Assumptions C15_module_folder_name_is_a_name.
+Check C15_module_folder_name_is_a_name : forall n, wf_name n = true -> parse_path n = [Norm n].
+
+(** the locators return the first existing candidate, from the documented head *)
+Theorem C15_first_existing : forall c f p r,
+  locate c f p = Found r <->
+  exists l1 q l2,
+    candidates (normalize true p) (module_folder_name c) = l1 ++ q :: l2 /\
+    is_file f q = true /\ (forall x, In x l1 -> is_file f x = false) /\ r = normalize true q.
+Proof. exact first_existing. Qed.
+Print Assumptions C15_first_existing.
+Check C15_first_existing : forall c f p r,
+  locate c f p = Found r <->
+  exists l1 q l2,
+    candidates (normalize true p) (module_folder_name c) = l1 ++ q :: l2 /\
+    is_file f q = true /\ (forall x, In x l1 -> is_file f x = false) /\ r = normalize true q.
+
+Theorem C15_find_require_path_first_existing : forall c rcs f src p r,
+  find_require_path c rcs f src p = Found r <->
+  exists h l1 q l2,
+    head_path c (rc_aliases c rcs src) src p = inl h /\
+    candidates (normalize true h) (module_folder_name c) = l1 ++ q :: l2 /\
+    is_file f q = true /\ (forall x, In x l1 -> is_file f x = false) /\ r = normalize true q.
+Proof. exact find_require_path_first_existing. Qed.
+Print Assumptions C15_find_require_path_first_existing.
+Check C15_find_require_path_first_existing : forall c rcs f src p r,
+  find_require_path c rcs f src p = Found r <->
+  exists h l1 q l2,
+    head_path c (rc_aliases c rcs src) src p = inl h /\
+    candidates (normalize true h) (module_folder_name c) = l1 ++ q :: l2 /\
+    is_file f q = true /\ (forall x, In x l1 -> is_file f x = false) /\ r = normalize true q.
+
+Theorem C15_find_require_path_errors : forall c rcs f src p e,
+  find_require_path c rcs f src p = Failed e ->
+  (e = ENotFound /\ exists h, head_path c (rc_aliases c rcs src) src p = inl h /\
+      forall x, In x (candidates (normalize true h) (module_folder_name c)) -> is_file f x = false)
+  \/ head_path c (rc_aliases c rcs src) src p = inr e.
+Proof. exact find_require_path_errors. Qed.
+Print Assumptions C15_find_require_path_errors.
+Check C15_find_require_path_errors : forall c rcs f src p e,
+  find_require_path c rcs f src p = Failed e ->
+  (e = ENotFound /\ exists h, head_path c (rc_aliases c rcs src) src p = inl h /\
+      forall x, In x (candidates (normalize true h) (module_folder_name c)) -> is_file f x = false)
+  \/ head_path c (rc_aliases c rcs src) src p = inr e.
+
+(** head selection *)
+Theorem C15_head_relative_path_mode : forall c rc src p,
+  c_luau c = false -> is_require_relative p = true -> head_path c rc src p = inl (join (pop src) p).
+Proof. exact head_relative_path_mode. Qed.
+Print Assumptions C15_head_relative_path_mode.
+Check C15_head_relative_path_mode : forall c rc src p,
+  c_luau c = false -> is_require_relative p = true -> head_path c rc src p = inl (join (pop src) p).
+
+Theorem C15_head_relative_luau_mode : forall c rc src p,
+  c_luau c = true -> is_require_relative p = true ->
+  head_path c rc src p =
+  inl (join (if is_module_folder_name c src
+             then get_relative_parent_path (get_relative_parent_path src)
+             else get_relative_parent_path src) p).
+Proof. exact head_relative_luau_mode. Qed.
+Print Assumptions C15_head_relative_luau_mode.
+Check C15_head_relative_luau_mode : forall c rc src p,
+  c_luau c = true -> is_require_relative p = true ->
+  head_path c rc src p =
+  inl (join (if is_module_folder_name c src
+             then get_relative_parent_path (get_relative_parent_path src)
+             else get_relative_parent_path src) p).
+
+Theorem C15_head_absolute : forall c rc src p,
+  is_require_relative p = false -> has_root p = true -> head_path c rc src p = inl p.
+Proof. exact head_absolute. Qed.
+Print Assumptions C15_head_absolute.
+Check C15_head_absolute : forall c rc src p,
+  is_require_relative p = false -> has_root p = true -> head_path c rc src p = inl p.
+
+Theorem C15_head_source_path_mode : forall c rc src name rest,
+  c_luau c = false ->
+  head_path c rc src (Norm name :: rest) =
+  match get_source c rc name (project_location c src) with
+  | Some loc => inl (extend loc rest)
+  | None => inr EUnknownSource
+  end.
+Proof. exact head_source_path_mode. Qed.
+Print Assumptions C15_head_source_path_mode.
+Check C15_head_source_path_mode : forall c rc src name rest,
+  c_luau c = false ->
+  head_path c rc src (Norm name :: rest) =
+  match get_source c rc name (project_location c src) with
+  | Some loc => inl (extend loc rest)
+  | None => inr EUnknownSource
+  end.
+
+Theorem C15_head_self_luau_mode : forall c rc src rest,
+  c_luau c = true ->
+  head_path c rc src (Norm self_name :: rest) = inl (join (get_relative_parent_path src) rest).
+Proof. exact head_self_luau_mode. Qed.
+Print Assumptions C15_head_self_luau_mode.
+Check C15_head_self_luau_mode : forall c rc src rest,
+  c_luau c = true ->
+  head_path c rc src (Norm self_name :: rest) = inl (join (get_relative_parent_path src) rest).
+
+Theorem C15_head_alias_luau_mode : forall c rc src a name rest,
+  c_luau c = true -> bytes_eqb (at_sign :: name) self_name = false -> a = at_sign ->
+  head_path c rc src (Norm (a :: name) :: rest) =
+  match get_source c rc (a :: name) (project_location c src) with
+  | Some loc => inl (extend loc rest)
+  | None => inr EUnknownSource
+  end.
+Proof. exact head_alias_luau_mode. Qed.
+Print Assumptions C15_head_alias_luau_mode.
+Check C15_head_alias_luau_mode : forall c rc src a name rest,
+  c_luau c = true -> bytes_eqb (at_sign :: name) self_name = false -> a = at_sign ->
+  head_path c rc src (Norm (a :: name) :: rest) =
+  match get_source c rc (a :: name) (project_location c src) with
+  | Some loc => inl (extend loc rest)
+  | None => inr EUnknownSource
+  end.
+
+(** recorded deviation: a luau-mode first component without `@` is never an alias *)
+Theorem C15_head_plain_luau_mode : forall c rc src a name rest,
+  c_luau c = true -> (a =? at_sign) = false ->
+  head_path c rc src (Norm (a :: name) :: rest) = inl (Norm (a :: name) :: rest).
+Proof. exact head_plain_luau_mode. Qed.
+Print Assumptions C15_head_plain_luau_mode.
+Check C15_head_plain_luau_mode : forall c rc src a name rest,
+  c_luau c = true -> (a =? at_sign) = false ->
+  head_path c rc src (Norm (a :: name) :: rest) = inl (Norm (a :: name) :: rest).
+
+Theorem C15_relative_to_requiring_file : forall c rc d s r,
+  d <> [] -> (c_luau c = false \/ is_module_folder_name c (d ++ [Norm s]) = false) ->
+  head_path c rc (d ++ [Norm s]) (Cur :: r) = inl (d ++ r).
+Proof. exact relative_to_requiring_file. Qed.
+Print Assumptions C15_relative_to_requiring_file.
+Check C15_relative_to_requiring_file : forall c rc d s r,
+  d <> [] -> (c_luau c = false \/ is_module_folder_name c (d ++ [Norm s]) = false) ->
+  head_path c rc (d ++ [Norm s]) (Cur :: r) = inl (d ++ r).
+
+Theorem C15_relative_to_parent_of_module_folder : forall c rc d0 x s r,
+  d0 <> [] -> c_luau c = true -> is_module_folder_name c ((d0 ++ [Norm x]) ++ [Norm s]) = true ->
+  head_path c rc ((d0 ++ [Norm x]) ++ [Norm s]) (Cur :: r) = inl (d0 ++ r).
+Proof. exact relative_to_parent_of_module_folder. Qed.
+Print Assumptions C15_relative_to_parent_of_module_folder.
+Check C15_relative_to_parent_of_module_folder : forall c rc d0 x s r,
+  d0 <> [] -> c_luau c = true -> is_module_folder_name c ((d0 ++ [Norm x]) ++ [Norm s]) = true ->
+  head_path c rc ((d0 ++ [Norm x]) ++ [Norm s]) (Cur :: r) = inl (d0 ++ r).
+
+(** recorded deviation: a module-folder file directly in the working directory *)
+Theorem C15_toplevel_module_folder_file_stays : forall c rc s r,
+  c_luau c = true -> head_path c rc [Norm s] (Cur :: r) = inl (Cur :: r).
+Proof. exact toplevel_module_folder_file_stays. Qed.
+Print Assumptions C15_toplevel_module_folder_file_stays.
+Check C15_toplevel_module_folder_file_stays : forall c rc s r,
+  c_luau c = true -> head_path c rc [Norm s] (Cur :: r) = inl (Cur :: r).
+
+(** the written argument is read back as the generated path *)
+Theorem C15_parse_write_roundtrip : forall p, wf_rel p = true -> parse_path (write_require_path p) = p.
+Proof. exact parse_write_roundtrip. Qed.
+Print Assumptions C15_parse_write_roundtrip.
+Check C15_parse_write_roundtrip : forall p, wf_rel p = true -> parse_path (write_require_path p) = p.
+
+(** conversions keep the target *)
+Theorem C15_convert_keeps_target :
+  forall (tgt : config) (rcs : rc_files) (f : fs) (d : path) (s : bytes) (t : path) (m : bytes),
+    c_sources tgt = [] ->
+    parse_path (module_folder_name tgt) = [Norm m] ->
+    simple d = true -> simple t = true ->
+    path_prefix t d = false ->
+    strip_target tgt t <> [] ->
+    forallb wf_comp (strip_target tgt t) = true ->
+    unambiguous tgt f t ->
+    exists t',
+      find_require tgt rcs f (d ++ [Norm s]) (generate_require tgt (d ++ [Norm s]) t) = Found t' /\
+      same_file t' t = true.
+Proof. exact convert_keeps_target. Qed.
+Print Assumptions C15_convert_keeps_target.
+Check C15_convert_keeps_target :
+  forall (tgt : config) (rcs : rc_files) (f : fs) (d : path) (s : bytes) (t : path) (m : bytes),
+    c_sources tgt = [] ->
+    parse_path (module_folder_name tgt) = [Norm m] ->
+    simple d = true -> simple t = true ->
+    path_prefix t d = false ->
+    strip_target tgt t <> [] ->
+    forallb wf_comp (strip_target tgt t) = true ->
+    unambiguous tgt f t ->
+    exists t',
+      find_require tgt rcs f (d ++ [Norm s]) (generate_require tgt (d ++ [Norm s]) t) = Found t' /\
+      same_file t' t = true.
+
+Theorem C15_convert_keeps_target_toplevel :
+  forall (tgt : config) (rcs : rc_files) (f : fs) (s : bytes) (t : path) (m : bytes),
+    parse_path (module_folder_name tgt) = [Norm m] ->
+    init_source tgt [Norm s] = false ->
+    simple t = true ->
+    strip_target tgt t <> [] ->
+    forallb wf_comp (strip_target tgt t) = true ->
+    unambiguous tgt f t ->
+    exists t',
+      find_require tgt rcs f [Norm s] (generate_require tgt [Norm s] (Cur :: t)) = Found t' /\
+      same_file t' (Cur :: t) = true.
+Proof. exact convert_keeps_target_toplevel. Qed.
+Print Assumptions C15_convert_keeps_target_toplevel.
+Check C15_convert_keeps_target_toplevel :
+  forall (tgt : config) (rcs : rc_files) (f : fs) (s : bytes) (t : path) (m : bytes),
+    parse_path (module_folder_name tgt) = [Norm m] ->
+    init_source tgt [Norm s] = false ->
+    simple t = true ->
+    strip_target tgt t <> [] ->
+    forallb wf_comp (strip_target tgt t) = true ->
+    unambiguous tgt f t ->
+    exists t',
+      find_require tgt rcs f [Norm s] (generate_require tgt [Norm s] (Cur :: t)) = Found t' /\
+      same_file t' (Cur :: t) = true.
+
+(** the unrestricted statement is refuted in the model (and on the code: known findings) *)
+Theorem C15_convert_keeps_target_refuted : ~ convert_full_statement.
+Proof. exact convert_keeps_target_refuted. Qed.
+Print Assumptions C15_convert_keeps_target_refuted.
+Check C15_convert_keeps_target_refuted : ~ convert_full_statement.
+
+Theorem C15_convert_relative_result_refuted :
+  exists (f : fs) (src : path) (literal : bytes) (t : path),
+    find_require path_mode_pkg [] f src literal = Found t /\
+    unambiguous luau_mode_pkg f t /\
+    is_require_relative t = true /\
+    find_require luau_mode_pkg [] f src (generate_require luau_mode_pkg src t) = Failed ENotFound.
+Proof. exact convert_relative_result_refuted. Qed.
+Print Assumptions C15_convert_relative_result_refuted.
+Check C15_convert_relative_result_refuted :
+  exists (f : fs) (src : path) (literal : bytes) (t : path),
+    find_require path_mode_pkg [] f src literal = Found t /\
+    unambiguous luau_mode_pkg f t /\
+    is_require_relative t = true /\
+    find_require luau_mode_pkg [] f src (generate_require luau_mode_pkg src t) = Failed ENotFound.
